@@ -359,7 +359,7 @@ def match(path, op, val="", ty="bexpr"):
             "mode": "", "n1": "", "n2": ""}
 
 
-def make_world(worlds, docs, cfgs_all, cfgsel, atoms, combo, colls, maxn, extra_strings=(), extra_lits=(), nest=False, want_parts=False):
+def make_world(worlds, docs, cfgs_all, cfgsel, atoms, combo, colls, maxn, extra_strings=(), extra_lits=(), nest=False, want_parts=False, want_classes=False):
     """assemble the world JSON shared by TLC and the harness"""
     strings = set(extra_strings)
     for d in docs:
@@ -390,7 +390,7 @@ def make_world(worlds, docs, cfgs_all, cfgsel, atoms, combo, colls, maxn, extra_
     return {
         "worlds": worlds, "docs": docs, "cfgs": [cfgs_all[i] for i in cfgsel], "cfgsel": cfgsel,
         "atoms": atoms, "combo": [i + 1 for i in combo], "colls": colls, "maxn": maxn,
-        "floattab": ft, "regextab": rt, "nest": nest, "parts": want_parts,
+        "floattab": ft, "regextab": rt, "nest": nest, "parts": want_parts, "classes": want_classes,
     }
 
 
